@@ -10,7 +10,9 @@
 (* parser (MappingSyntax), builds the declarative index once per session   *)
 (* and requires every recorded answer to equal Retrace!Answer.  Sessions   *)
 (* outside the stated domain (empty names, numbers >= 2^32-1) are only     *)
-(* required to have completed (C13).                                       *)
+(* required to have completed (C13); "call" events are the other public   *)
+(* entry points (text / typed trace remapping, signatures, try_parse) run  *)
+(* on arbitrary Unicode text, for which only completion is required here.  *)
 (***************************************************************************)
 EXTENDS Integers, Sequences, TLC, TLCExt, Json, IOUtils, Retrace, MappingSyntax
 
@@ -30,13 +32,21 @@ Session ==
 
 Handles == {"mapper", "mapperp", "cache"}
 
+\* C13: every call returns: no panic (overflow checks are on in the harness build), no error
+Completed(ev) ==
+  /\ ev.status.mapper = "ok" /\ ev.status.cache = "ok"
+  /\ ev.t = "q" => ev.status.mapperp = "ok"
+
 Conforms(ev) ==
-  ev.t = "q" =>
-    LET s == Session[ev.sid] IN
-    s.indomain =>
-      /\ ev.got.mapper = Answer(s.blocks, ev.q, FALSE)
-      /\ ev.got.mapperp = Answer(s.blocks, ev.q, TRUE)
-      /\ ev.got.cache = Answer(s.blocks, ev.q, TRUE)
+  CASE ev.t = "load" -> TRUE
+    [] ev.t = "call" -> Completed(ev)
+    [] ev.t = "q" ->
+         /\ Completed(ev)
+         /\ LET s == Session[ev.sid] IN
+            s.indomain =>
+              /\ ev.got.mapper = Answer(s.blocks, ev.q, FALSE)
+              /\ ev.got.mapperp = Answer(s.blocks, ev.q, TRUE)
+              /\ ev.got.cache = Answer(s.blocks, ev.q, TRUE)
 
 VARIABLE cursor
 Init == cursor \in 1..(IF N < K THEN N ELSE K)
